@@ -174,7 +174,38 @@ class SchemaOp(Contract):
         kinds = self.index_kinds if backend == "pandas" else ["none"]
         k = cur().choose([(x, None) for x in kinds], "kind(self.index)") if len(kinds) > 1 else 0
         core.register_model_var("kind(self.index)", lambda m, k=k: kinds[k])
-        return SO.make_schema(S, C, "self", self.labels, make_index(kinds[k]))
+        r = SO.make_schema(S, C, "self", self.labels, make_index(kinds[k]))
+        how = self.fixed.get("unique", "any")
+        if how != "any":
+            # the schema-level joint uniqueness constraints: none, one over two columns (unique=["a", "b"]), or several groups
+            u = {"none": None, "a+b": ListObj(["a", "b"]), "a+b|c": ListObj([ListObj(["a", "b"]), ListObj(["c"])])}[how]
+            if u is not None:
+                u.pre = True
+                u.name = "self.unique"
+            r.attrs["_unique"] = u
+            r.attrs0["_unique"] = u
+        return r
+
+    def unique_spec(self, out, result, rename=None, remaining=None):
+        """what `unique=["a", "b"]` becomes (C15: S accepts D => op(S) accepts op(D)): under a rename the names follow the columns; a
+        constraint that names a column the result no longer declares cannot be kept as it is (the back ends would check the remaining
+        columns ALONE, which D need not satisfy)"""
+        how = self.fixed.get("unique", "any")
+        if how in ("any", "none"):
+            if how == "none":
+                out["schema.unique_stays_unset"] = attr(result, "_unique") is None
+            return
+        u = attr(result, "_unique")
+        got = None if u is None else ([list(x) if isinstance(x, (list, tuple)) else x for x in list(u)])
+        groups0 = [["a", "b"]] if how == "a+b" else [["a", "b"], ["c"]]
+        nested = how != "a+b"
+        norm = (lambda g: [] if g is None else ([list(x) for x in g] if nested else [list(g)]))
+        if rename is not None:
+            out["schema.unique_follows_the_renamed_columns"] = norm(got) == [[rename.get(n, n) for n in g] for g in groups0]
+        else:
+            flat = [y for g in norm(got) for y in g]
+            out["schema.unique_names_only_columns_the_result_declares"] = all(y in remaining for y in flat)
+            out["schema.unique_constraints_whose_columns_stay_are_kept"] = all(g in norm(got) for g in groups0 if all(c in remaining for c in g))
 
     # -- common postconditions
     def common(self, out, result, self_, expected, index="same", rc=None):
@@ -212,6 +243,8 @@ class SchemaOp(Contract):
             if p in self.schema_params_touched or p == "index":
                 continue
             sp = SO.SCHEMA_STORED_AS.get(p, p)
+            if p == "unique" and self.fixed.get("unique", "any") != "any":
+                continue  # (stated by unique_spec)
             out[f"schema.{p}"] = SO.attr_equal(result, self_, sp)
         if index == "same":
             ri, si = attr(result, "index"), attr0(self_, "index")
@@ -238,7 +271,7 @@ class RemoveColumns(SchemaOp):
     if column not in schema'.  Mirrors DataFrame.drop(columns=...): the remaining columns keep order and content."""
 
     target = f"{DFS}.remove_columns"
-    split = {"backend": SchemaOp.backend_split, "req": list(range(len(REMOVE_REQUESTS)))}
+    split = {"backend": SchemaOp.backend_split, "req": list(range(len(REMOVE_REQUESTS))), "unique": ["none", "a+b", "a+b|c"]}
 
     def make_args(self):
         req = ListObj(REMOVE_REQUESTS[self.arg("req", T.Any)])
@@ -254,7 +287,10 @@ class RemoveColumns(SchemaOp):
 
     def ensures(self, result, old, self_, cols_to_remove):
         out = {"request_was_valid": self.valid(cols_to_remove)}
-        return self.common(out, result, self_, kept(self_, [k for k in self.labels if k not in cols_to_remove]))
+        out = self.common(out, result, self_, kept(self_, [k for k in self.labels if k not in cols_to_remove]))
+        if out.get("returns_a_new_schema"):
+            self.unique_spec(out, result, remaining=[k for k in self.labels if k not in cols_to_remove])
+        return out
 
     def on_raise(self, exc, old, self_, cols_to_remove):
         if exc.cls is not SchemaInitError:
@@ -270,7 +306,7 @@ class SelectColumns(SchemaOp):
     SchemaInitError if column not in the schema'; 'If an index is present in the schema, it will also be included'."""
 
     target = f"{DFS}.select_columns"
-    split = {"backend": SchemaOp.backend_split, "req": list(range(len(SELECT_REQUESTS)))}
+    split = {"backend": SchemaOp.backend_split, "req": list(range(len(SELECT_REQUESTS))), "unique": ["none", "a+b", "a+b|c"]}
 
     def make_args(self):
         req = ListObj(SELECT_REQUESTS[self.arg("req", T.Any)])
@@ -286,7 +322,10 @@ class SelectColumns(SchemaOp):
 
     def ensures(self, result, old, self_, columns):
         out = {"request_was_valid": self.valid(columns)}
-        return self.common(out, result, self_, kept(self_, list(columns)))
+        out = self.common(out, result, self_, kept(self_, list(columns)))
+        if out.get("returns_a_new_schema"):
+            self.unique_spec(out, result, remaining=list(columns))
+        return out
 
     def on_raise(self, exc, old, self_, columns):
         return {"only_for_an_invalid_request": not self.valid(columns), "is_schema_init_error": exc.cls is SchemaInitError}
@@ -307,7 +346,7 @@ class RenameColumns(SchemaOp):
     column onto an existing other column, cannot be represented by a schema: it must raise, not lose a column."""
 
     target = f"{DFS}.rename_columns"
-    split = {"backend": SchemaOp.backend_split, "req": list(range(len(RENAME_REQUESTS)))}
+    split = {"backend": SchemaOp.backend_split, "req": list(range(len(RENAME_REQUESTS))), "unique": ["none", "a+b", "a+b|c"]}
 
     def make_args(self):
         req = DictObj(RENAME_REQUESTS[self.arg("req", T.Any)])
@@ -332,7 +371,10 @@ class RenameColumns(SchemaOp):
         if len(set(e[0] for e in exp)) != len(exp):
             out["no_column_lost"] = isinstance(result, Obj) and len(attr(result, "columns")) == len(self.labels)
             return out
-        return self.common(out, result, self_, exp)
+        out = self.common(out, result, self_, exp)
+        if out.get("returns_a_new_schema"):
+            self.unique_spec(out, result, rename=dict(rename_dict))
+        return out
 
     def on_raise(self, exc, old, self_, rename_dict):
         # refusing a swap (a->b, b->a) is documented: "ensure all new keys are not present in the current column names"
